@@ -63,9 +63,14 @@ func c02Universe(maxLit int) []lib.Pair {
 // store (a store maps a key to one value).
 func c02Stores(maxLit int) [2][]lib.Pair {
 	u := c02Universe(maxLit)
-	v := make([]lib.Pair, len(u))
+	v := make([]lib.Pair, 0, len(u))
 	for i, p := range u {
-		v[i] = lib.Pair{K: p.K, V: "y"}
+		// the second store is sparse (two of every three keys): point reads of
+		// listed keys can miss, scans cross gaps
+		if i%3 == 1 {
+			continue
+		}
+		v = append(v, lib.Pair{K: p.K, V: "y"})
 	}
 	return [2][]lib.Pair{u, v}
 }
@@ -169,14 +174,14 @@ func checkC02(c *c02Case) (msg string, nontrivial bool, labels []string) {
 	type hit struct{ k, v string }
 	var sat []hit
 	satKeyAny := map[string]bool{} // key satisfies P for some value
-	for vi := range stores {
-		for _, p := range stores[vi] {
-			ok, err := lib.EvalBool(c.Where, p.K, p.V, nil)
+	for _, val := range []string{"x", "y"} {
+		for _, p := range c02Universe(c.MaxLit) {
+			ok, err := lib.EvalBool(c.Where, p.K, val, nil)
 			if err != nil {
 				return "", false, []string{"skipped-not-evaluable"}
 			}
 			if ok {
-				sat = append(sat, hit{p.K, p.V})
+				sat = append(sat, hit{p.K, val})
 				satKeyAny[p.K] = true
 			}
 		}
@@ -229,16 +234,21 @@ func checkC02(c *c02Case) (msg string, nontrivial bool, labels []string) {
 	for vi := range stores {
 		var want [][]any
 		wantGone := map[string]bool{}
+		stored := map[string]bool{}
+		for _, p := range stores[vi] {
+			stored[p.K] = true
+		}
 		for _, h := range sat {
-			if h.v == stores[vi][0].V {
+			if h.v == stores[vi][0].V && stored[h.k] {
 				want = append(want, []any{h.k, h.v})
 				wantGone[h.k] = true
 			}
 		}
-		for _, mode := range []string{"row", "batch"} {
+		for mi, mode := range []string{"row", "batch", "batch"} {
 			cfg := lib.Cfg{Mode: mode, Batch: 32, Cache: true}
-			if mode == "batch" && len(q)%2 == 1 {
-				cfg.Batch = 5
+			if mode == "batch" {
+				// batch sizes 1, 2, 5, 32: chosen by the statement text so that every size is used
+				cfg.Batch = []int{1, 2, 5, 32}[(len(q)+mi+vi)%4]
 			}
 			store := lib.NewStore(stores[vi])
 			res := lib.Run(q, store, len(stores[vi]), cfg)
